@@ -32,6 +32,7 @@ def run(chk):
     rule_usage(chk)
     rule_out(chk)
     rule_trampoline_when(chk)
+    rule_operand_repeated(chk)
 
 
 def rule_sibling_ops(chk):
@@ -359,3 +360,39 @@ def rule_trampoline_when(chk):
            "%d of %d cases differ, e.g. parameters %s called=%s only_declare=%s: emits (only_declare, trampoline_target, out_trampoline) = %s, must be %s: "
            "an out/inout parameter %s" % ((len(bad), n) + bad[0] + ("binds directly to the argument (aliasing instead of copy-in/copy-out)" if len(str(bad[0][3])) < len(str(bad[0][4])) else "is handled differently",)),
            where(fn), sample={"cases": n, "wrong": len(bad)})
+
+
+def rule_operand_repeated(chk):
+    """Scalar-to-struct casts are emitted as S{e, e, ..}: the operand is written once per member, which keeps its meaning
+    only if evaluating it has no effect. The `no_side_effects` decision in generate_expression is a match over the IR
+    operand: every variant it declares repeatable must be a leaf of ir::Expression (no sub-expression that could hide a
+    call or an assignment); anything else may only be allowed when nothing is repeated (member count 1)."""
+    f = chk.facts
+    ge = chk.anchor("C02.anchor/generate_expression", f.fn("generate_expression", MSL), "msl generate_expression")
+    adt = f.adt("ir_expressions::Expression", "rssl_ir")
+    if not ge or not chk.anchor("C02.anchor/ir::Expression", adt, "ir::Expression"):
+        return
+    leaf = {v["name"]: not any("Expression" in (x.get("ty") or "") or "ConstructorSlot" in (x.get("ty") or "") for x in v["fields"]) for v in adt["variants"]}
+    found = 0
+    for m in F.exprs(ge["thir"], "Match"):
+        if m.get("ty") != "bool" or "ir_expressions::Expression" not in F.strip(m["scrut"]).get("ty", "").replace("ir::", "rssl_ir::"):
+            continue
+        if not all(a["body"].get("ty") == "bool" for a in m["arms"]):
+            continue
+        found += 1
+        for arm in m["arms"]:
+            tl = F.lit(F.strip(F.tail(arm["body"])))
+            alts = [F.pat_variant(a) for a in F.pat_alternatives(arm["pat"])]
+            if tl == ("bool", True):
+                for pv in alts:
+                    name = pv[1] if pv else "_"
+                    ok = pv is not None and leaf.get(name, False)
+                    chk.ob("C02.dup/struct-cast/%s" % name, ok, "leaf operand: repeating it is harmless" if ok else
+                           "a struct cast repeats its operand once per member, and an operand of kind %s is declared free of side effects although it %s: a call or assignment inside it is emitted (and executed) several times"
+                           % (name, "has sub-expressions" if pv else "can be anything"), where(ge, arm), sample={"variant": name, "leaf": ok})
+            else:
+                body = F.strip(F.tail(arm["body"]))
+                ok = tl == ("bool", False) or (body.get("k") == "Binary" and body.get("op") == "Eq" and F.lit(body["r"]) == ("int", 1))
+                chk.ob("C02.dup/struct-cast/other", ok, "any other operand only when a single member is initialised" if ok else
+                       "non-leaf operands of a struct cast are accepted under another condition than `member_count == 1`", where(ge, arm))
+    chk.floor("C02.floor/struct-cast-decision", found, 1, "side-effect decision of the struct cast", where(ge))
